@@ -114,6 +114,16 @@ impl Shards {
         f.write_all(b"\n").unwrap();
         self.events += 1;
     }
+    /// like finish, but every shard ends with an End event (per-file totals are judged there)
+    pub fn finish_with_end(mut self) -> (u64, u64) {
+        for i in 0..self.files.len() {
+            self.cur = i;
+            self.ev(serde_json::json!({"op":"Run","scn":"end"}));
+            self.ev(serde_json::json!({"op":"End"}));
+        }
+        self.finish()
+    }
+
     pub fn finish(mut self) -> (u64, u64) {
         for f in self.files.iter_mut() {
             f.flush().unwrap();
